@@ -38,6 +38,13 @@ def produce2(case_id):
     return _produce("produce2", case_id)
 
 
+@m.memento_function
+def autov(case_id):
+    """Automatic version. Its helper is defined further down: the version computed when this function is registered
+    is not its final one (C09)."""
+    return _autov_tail(case_id)
+
+
 @m.memento_function(cluster="c", version="p1")
 def cproduce(case_id):
     return _produce("cproduce", case_id)
@@ -175,3 +182,7 @@ def outer(case_id):
     a = produce2(case_id)
     b = nest.call_batch([{"case_id": case_id}])
     return [a, b[0]]
+
+
+def _autov_tail(case_id):
+    return _produce("autov", case_id)
